@@ -633,3 +633,88 @@ Theorem inst_tree_roundtrip : forall vt dyn vs fs c, deep_valid leaf lvalidate l
 Proof.
   intros vt. apply tree_roundtrip; [apply inst_leaf_roundtrip | apply inst_vrun_lookup].
 Qed.
+
+(* ------------------------------------------------------------------------------------------------ *)
+(* non-vacuity: a deeply valid state (the fresh configuration of a small nested schema), and the     *)
+(* round trip computed on it                                                                         *)
+(* ------------------------------------------------------------------------------------------------ *)
+Definition rt_mk (k : lkind) (req : bool) (d : pyval) : leaf :=
+  {| l_kind := k; l_required := req; l_default := d; l_callable := false; l_sensitive := false |}.
+(* n = IntField(min=1, max=100, default=3); s = StringField(min_len=2, required, default "abc"); sub.a = IntField(max=20, default=5);
+   rows = ListField(Schema(v = IntField(required))) *)
+Definition rt_fs : list (str * node leaf) :=
+  [(sa "n", NLeaf (rt_mk (LInt (Some 1%Z) (Some 100%Z)) false (PInt 3)));
+   (sa "s", NLeaf (rt_mk (LStr (Some 2%nat) None false false) true (PStr (sa "abc"))));
+   (sa "sub", NSub false [] [(sa "a", NLeaf (rt_mk (LInt None (Some 20%Z)) false (PInt 5)))]);
+   (sa "rows", NCfgList false [] [(sa "v", NLeaf (rt_mk (LInt None None) true PNone))])].
+Definition rt_root : cfg := snd (build_cfg leaf ldefault l_callable w0 rt_fs).
+Definition rt_w : world := fst (build_cfg leaf ldefault l_callable w0 rt_fs).
+
+Ltac solve_notin := cbn; intuition discriminate.
+Ltac solve_nodup := match goal with |- NoDup _ => repeat (constructor; [solve_notin|]); constructor end.
+Ltac solve_valid := unfold deep_valid; cbn; repeat split; intros; cbn in *;
+  try reflexivity; try solve_nodup; try contradiction; try assumption; try (left; assumption).
+
+Example rt_root_deep_valid : deep_valid leaf lvalidate lflag (vrun []) false [] rt_fs rt_root.
+Proof. solve_valid. Qed.
+
+(* the list slot holds None in the original and [] in the re-loaded configuration: the allowed normalisation *)
+Example rt_root_roundtrip :
+  exists t c', to_tree leaf lto_basic l_sensitive py_strlen None rt_fs rt_root = Ok t
+    /\ snd (fst (load_tree leaf lvalidate lto_python ldefault l_callable lflag (vrun []) t true rt_w []
+                   (snd (build_cfg leaf ldefault l_callable rt_w rt_fs)) false [] rt_fs)) = c'
+    /\ dget (sa "rows") (c_data rt_root) = Some (VLeaf PNone)
+    /\ dget (sa "rows") (c_data c') = Some (VList [])
+    /\ same_valuesb leaf rt_fs c' rt_root = true.
+Proof. eexists. eexists. split; [vm_compute; reflexivity|]. split; [vm_compute; reflexivity|]. repeat split. Qed.
+
+(* ------------------------------------------------------------------------------------------------ *)
+(* the regions where the faithful model violates the statement                                       *)
+(* ------------------------------------------------------------------------------------------------ *)
+(* F36: x = IntField(default=1); sub.enabled = FeatureFlagField(default=False); sub.need = IntField(required=True).
+   The fresh configuration validates (the disabled sub-configuration is exempt), renders "need": null, and the
+   rendered tree is rejected by load_tree: "sub.need: value is required". *)
+Definition f36_fs : list (str * node leaf) :=
+  [(sa "x", NLeaf (rt_mk (LInt None None) false (PInt 1)));
+   (sa "sub", NSub false [] [(sa "enabled", NLeaf (rt_mk LFlag false (PBool false)));
+                             (sa "need", NLeaf (rt_mk (LInt None None) true PNone))])].
+Definition f36_c : cfg := snd (build_cfg leaf ldefault l_callable w0 f36_fs).
+Definition f36_w : world := fst (build_cfg leaf ldefault l_callable w0 f36_fs).
+Definition f36_tree : pyval :=
+  PDict 0 [(PStr (sa "x"), PInt 1);
+           (PStr (sa "sub"), PDict 0 [(PStr (sa "enabled"), PBool false); (PStr (sa "need"), PNone)])].
+
+Theorem roundtrip_refuted_F36 :
+  validate_errs leaf lvalidate lflag (vrun []) (NSub false [] f36_fs) [] (VCfg f36_c) = []
+  /\ Normal leaf lvalidate lflag (vrun []) false f36_fs f36_c
+  /\ known_F36 leaf lflag f36_fs f36_c = true
+  /\ to_tree leaf lto_basic l_sensitive py_strlen None f36_fs f36_c = Ok f36_tree
+  /\ snd (load_tree leaf lvalidate lto_python ldefault l_callable lflag (vrun []) f36_tree true f36_w []
+            (snd (build_cfg leaf ldefault l_callable f36_w f36_fs)) false [] f36_fs) = OErr (EValidation (sa "sub.need")).
+Proof.
+  split; [vm_compute; reflexivity|]. split.
+  - unfold Normal. cbn. repeat split; intros; cbn in *; try solve_nodup; try contradiction; try assumption; try (left; assumption);
+      try (left; reflexivity); try (right; eexists; reflexivity).
+  - split; [vm_compute; reflexivity|]. split; vm_compute; reflexivity.
+Qed.
+
+(* F50: items = ListField(Schema(need = IntField(required=True))); c.items = [{"need": 1}]; reset_value(c.items[0], "need").
+   Whole-configuration validation does not look into the items of a list, so the state validates; the rendered
+   tree holds "need": null and is rejected by load_tree: "items[0].need: value is required". *)
+Definition f50_fs : list (str * node leaf) :=
+  [(sa "items", NCfgList false [] [(sa "need", NLeaf (rt_mk (LInt None None) true PNone))])].
+Definition f50_c : cfg := Cfg 0 [(sa "items", VList [Cfg 1 [(sa "need", VLeaf PNone)] [sa "need"] []])] [] [].
+Definition f50_tree : pyval := PDict 0 [(PStr (sa "items"), PList 0 [PDict 0 [(PStr (sa "need"), PNone)]])].
+
+Theorem roundtrip_refuted_stale_item :
+  (* reached by public operations: constructor keyword, then reset_value on the item *)
+  run_roundtrip (Some ([], false, [], f50_fs, [(sa "items", PList 0 [PDict 0 [(PStr (sa "need"), PInt 1)]])],
+                       [([PItem (sa "items") 0], CReset (sa "need"))]))
+    = PTuple [o_str "ok"; o_cfg' f50_c; o_res (Ok f50_tree); o_oc (OErr (EValidation (sa "items[0].need")));
+              o_cfg' (snd (build_cfg leaf ldefault l_callable {| w_next := 2; w_calls := 0 |} f50_fs)); PBool false]
+  /\ validate_errs leaf lvalidate lflag (vrun []) (NSub false [] f50_fs) [] (VCfg f50_c) = []
+  /\ known_F36 leaf lflag f50_fs f50_c = false
+  /\ to_tree leaf lto_basic l_sensitive py_strlen None f50_fs f50_c = Ok f50_tree
+  /\ snd (load_tree leaf lvalidate lto_python ldefault l_callable lflag (vrun []) f50_tree true w0 []
+            (snd (build_cfg leaf ldefault l_callable w0 f50_fs)) false [] f50_fs) = OErr (EValidation (sa "items[0].need")).
+Proof. repeat split; vm_compute; reflexivity. Qed.
